@@ -292,7 +292,11 @@ func xbRun(id string, thr int, steps []brStep) brResult {
 	vrefuseDials[addr] = &dials
 	vrefuseOK[addr] = &accept
 	vrefuseMu.Unlock()
-	d, _ := client.NewPeer2PeerDiscovery("vrefuse@"+addr, "")
+	key := "vrefuse@" + addr
+	if (len(steps)+thr)%2 == 0 {
+		key = addr // a server key without a network means tcp (runC18 has put the same scripted dialer there)
+	}
+	d, _ := client.NewPeer2PeerDiscovery(key, "")
 	opt := client.DefaultOption
 	opt.Retries = 0
 	opt.SerializeType = protocol.JSON
@@ -473,6 +477,8 @@ func xbUpdate(o *common.Out, id string, thr int, variant string) {
 }
 
 func runC18(r *common.Rand, tier string, o *common.Out, replay string) {
+	// nothing in this process dials real TCP: "tcp" leads to the scripted dialer too (before any client exists)
+	client.ConnFactories["tcp"] = client.ConnFactories["vrefuse"]
 	if strings.HasPrefix(replay, "xupd|") {
 		p := strings.Split(replay, "|")
 		thr, _ := strconv.Atoi(p[1])
